@@ -17,7 +17,7 @@ THOROUGH_SCALE = 3        # random budgets of the thorough tier are multiplied b
 REQUIRE = {'streams_roll': 50, 'streams_paint': 50, 'mode_switches': 20, 'rows_checked': 500,
            'streams_starting_at_zero': 20, 'depth_2': 5, 'depth_3': 5, 'depth_4': 5, 'chars_conserved': 5000,
            'rows_with_special_or_extended': 20, 'abandoned_pop_on_loads': 10, 'streams_returning_to_an_earlier_mode': 50, 'end_equals_next_start_checked': 500,
-           'reads_by_a_reader_object_used_before': 100}
+           'reads_by_a_reader_object_used_before': 100, 'reads_with_lang_option': 100}
 
 
 def cases(ctx):
@@ -31,6 +31,8 @@ def cases(ctx):
         case = {'stream': G.gen_stream(rng, modes=modes, rich=rng.random() < 0.4)}
         if rng.random() < 0.2:
             case['prior_doc'] = G.prior_doc(rng)      # the reader object has read another document before
+        if rng.random() < 0.25:
+            case['lang'] = rng.choice(['fr', 'en', 'x-y', 'en-US'])     # read(..., lang=)
         yield case
 
 
@@ -67,11 +69,14 @@ def check(case, ctx):
         if s['mode'] == 'roll':
             ctx.count('depth_%d' % s['depth'])
     try:
-        cs = G.reader_for(case, ctx).read(doc)
+        kw = {'lang': case['lang']} if case.get('lang') else {}
+        if kw:
+            ctx.count('reads_with_lang_option')
+        cs = G.reader_for(case, ctx).read(doc, **kw)
     except Exception as e:
         return [{'what': 'SCCReader raised on a well-formed roll-up / paint-on stream', 'error': repr(e)[:400],
                  'doc': doc}]
-    caps = list(cs.get_captions('en-US'))
+    caps = list(cs.get_captions(case.get('lang') or 'en-US'))
     fails = []
     texts = [c.get_text() for c in caps]
     sent = ''.join(_squash(r) for r in rows)
